@@ -532,6 +532,25 @@ def operator_table():
                 body.append(Echo(chain(xs + [S(" m"), Bin("*", xs[0], xs[1])])))
     for k in range(0, len(body), 60):
         progs.append(Program([Func("main", [], VOID, body[:5] + body[max(5, k):k + 60])]))
+    # one array-literal node evaluated several times with different values of the variables it mentions: in a loop body, in a
+    # function called repeatedly and recursively, as an argument inside a while loop, as the right-hand side of an assignment
+    IA_, FA_ = A("int"), A("float")
+    pair = Func("pair", [Param(P("int"), "n")], IA_, [Decl(IA_, "r", Arr("int", [Var("n"), Bin("*", Var("n"), I(2))])), Ret(Var("r"))])
+    weight = Func("weight", [Param(IA_, "xs")], P("int"), [Ret(Bin("+", Idx(Var("xs"), I(0)), Bin("*", Idx(Var("xs"), I(1)), I(10))))])
+    halves = Func("halves", [Param(P("int"), "n")], P("float"),
+                  [Decl(FA_, "h", Arr("float", [Bin("/", Var("n"), I(2)), F(1, 1)])), If(Bin("<=", Var("n"), I(1)), [Ret(Idx(Var("h"), I(0)))]),
+                   Ret(Bin("+", Idx(Var("h"), I(0)), Call("halves", Bin("-", Var("n"), I(2)))))])
+    body = [For(Decl(P("int"), "i", I(0)), Bin("<", Var("i"), I(3)), Asg("i", Bin("+", Var("i"), I(1))),
+                [Decl(IA_, "row", Arr("int", [Var("i"), Bin("+", Var("i"), I(1))])), Echo(Var("row")),
+                 Decl(A("str"), "names", Arr("str", [Bin("+", S("n"), Var("i")), S("k")])), Echo(Idx(Var("names"), I(0)))]),
+            Echo(Call("pair", I(1))), Echo(Call("pair", I(5))), Echo(Idx(Call("pair", I(7)), I(1))),
+            Decl(P("int"), "a", I(1)), Decl(P("int"), "b", I(2)),
+            While(Bin("<", Var("a"), I(4)), [Echo(Call("weight", Arr("int", [Var("a"), Var("b")]))), Expr(Asg("a", Bin("+", Var("a"), I(1)))), Expr(Asg("b", Bin("*", Var("b"), I(2))))]),
+            Echo(Call("halves", I(7))),
+            Decl(IA_, "acc", Arr("int", [I(0), I(0)])),
+            For(Decl(P("int"), "j", I(1)), Bin("<", Var("j"), I(4)), Asg("j", Bin("+", Var("j"), I(1))),
+                [Expr(Asg("acc", Arr("int", [Var("j"), Bin("*", Var("j"), Var("j"))]))), Echo(Var("acc"))])]
+    progs.append(Program([pair, weight, halves, Func("main", [], VOID, body)]))
     tyname = {"int": "int", "long": "long", "float": "float", "bool": "bool", "bit": "bit", "str": "str", "char": "char"}
     vb = []
     for c in batch:
